@@ -974,7 +974,9 @@ func builtinHasKey(env *lisp.LEnv, args *lisp.LVal) *lisp.LVal {
 		if input.Type != lisp.LSortMap {
 			return lisp.ErrorConditionf(WrongType, "Input is not sorted map")
 		}
-		matched := false
+		// With no type given the key only has to be present (README: the
+		// type is optional).
+		matched := len(compares) == 0
 		// The !ok branch here is already the LOUD one: a map that cannot be
 		// searched for this key and a map that simply lacks it both fail.
 		// s:may-have-key's equivalent branch PASSES, which is why it needs the
@@ -1016,7 +1018,9 @@ func builtinMayHaveKey(env *lisp.LEnv, args *lisp.LVal) *lisp.LVal {
 		if input.Type != lisp.LSortMap {
 			return lisp.ErrorConditionf(WrongType, "Input is not sorted map")
 		}
-		matched := false
+		// With no type given the key only has to be present (README: the
+		// type is optional).
+		matched := len(compares) == 0
 		val, ok := input.Map().Get(schemaKey(key))
 		if !ok {
 			// Get signals two different things through the same false: "no
